@@ -22,7 +22,8 @@ LEAN_MODULES = ["NiftyVerif.Core.Proto", "NiftyVerif.Model.LikelihoodRe", "Nifty
 DRIVER = "Driver/C12.lean"
 OBLIGATIONS = ["NiftyVerif.C12." + t for t in (
     "factor_iff_matrix", "R_eq_Lh", "default_metric_eq_L_R", "ofML_factor", "L_Lh_eq_M_ndvc",
-    "expected_pullback_vcgauss_complex_witness", "with_model_factor_star",
+    "expected_pullback_vcgauss_complex_witness", "expected_pullback_vcgauss_complex_factor",
+    "studentt_dense_noise_witness", "with_model_factor_star",
     "L_Lh_eq_M_gaussian", "L_Lh_eq_M_studentt", "L_Lh_eq_M_poisson", "L_Lh_eq_M_vcgauss", "L_Lh_eq_M_vcstudt",
     "categorical_factor", "softmax_group_sum", "L_Lh_eq_M_categorical", "categorical_global_sum_defect",
     "L_is_pullback_gaussian", "L_is_pullback_studentt", "L_is_pullback_poisson",
@@ -31,7 +32,9 @@ OBLIGATIONS = ["NiftyVerif.C12." + t for t in (
     "with_model_factor", "sum_factor", "partial_factor", "with_model_fisher", "sum_fisher", "partial_fisher",
 )]
 RULE = ("cases = real likelihood objects built from generated JSON: 7 implementations x (scalar | batched | Vector-pytree "
-        "data, real | complex) x (plain | amended with linear/non-linear forward model | sum of 2-3 | partially frozen); "
+        "data, real | complex) x (plain | amended with linear/non-linear forward model | sum of 2-3 | partially frozen) "
+        "x (real latent | latent tree with complex leaves and complex forward models: imaginary/complex scalar, complex "
+        "diagonal, jnp.fft, complex dense, holomorphic / anti-holomorphic / real-valued activations) x (float64 | float32); "
         "non-trivial = parameter dimension >= 2 or a composition; distinct by canonical JSON of the case")
 TRUSTED_BASE = [
     "Lean 4.33 kernel; axioms propext/Classical.choice/Quot.sound only (audited every run)",
@@ -47,8 +50,11 @@ TRUSTED_BASE = [
 ASSUMPTIONS = [
     "noise_cov_inv / noise_std_inv generated diagonal and mutually consistent (the constructor does not check this)",
     "Categorical probed on the logits shape (its declared lsm_tangents_shape is the data shape)",
-    "NDVariableCovarianceGaussian: model driver supports d <= 2 (closed-form 2x2 sqrt/inverse); d = 3 oracle only; "
-    "Fisher compared on symmetric matrix directions",
+    "NDVariableCovarianceGaussian: model driver d <= 2 closed forms, d = 3, 4 Gauss-Jordan + Denman-Beavers iteration "
+    "(generated: d <= 3); Fisher compared on symmetric matrix directions",
+    "dense (non-diagonal) Hermitian noise operators: oracle only; generated mutually consistent (cov_inv = std_inv^2), "
+    "Student-t with them and a scalar dof (per-element dof: known finding C12-studentt-dense-noise-dof)",
+    "float32 cases run under jax.enable_x64(False) in the same workers, tolerance 2e-4 (observed noise <= 1e-6)",
 ]
 
 TOL = 1e-9
@@ -331,7 +337,7 @@ def model_supported(case):
     return all(not t.get("par", {}).get("herm") and not (t["kind"] == "ndvc" and t["d"] > ND_MAX) for t in case["terms"])
 
 
-ND_MAX = 2
+ND_MAX = 4
 
 
 # ---------------------------------------------------------------------------------------------------
@@ -446,6 +452,8 @@ def term_tag(t):
         return "ndvc[d>=2]" if t["d"] >= 2 else "ndvc[d=1]"
     if k == "categorical":
         return "categorical[batched]" if sum(FI._leaf_elems(t)) > 1 else "categorical[single]"
+    if k == "studentt" and t["par"].get("herm") is not None and len(t["par"]["dof"]) > 1:
+        return "studentt[dense-noise,dof-per-element]"
     return k
 
 
@@ -708,16 +716,22 @@ def gen_composed(rng, kinds=None, nterms=None, freeze=None):
     return case
 
 
-def gen_herm_term(rng, kind, want_y=True):
-    """Gaussian / Student-t with dense complex HERMITIAN noise operators (callables) on one complex array leaf"""
+def gen_herm_term(rng, kind, want_y=True, cplx=True, dof_per_element=False):
+    """Gaussian / Student-t with dense HERMITIAN (complex data) or real symmetric (real data) noise operators
+    (callables, std_inv = H, cov_inv = H H) on one array leaf"""
     n = rng.choice([2, 2, 3])
     shape = rng.choice([[n], [n, 1], [1, n]])
-    t = dict(kind=kind, par=dict(herm=G.gen_herm(rng, n)), tree=dict(wrap="arr", leaves=[dict(shape=shape, cplx=True)]))
-    t["data"] = G.dys(rng, 2 * n, -2, 2)
+    H = G.gen_herm(rng, n)
+    if not cplx:
+        H = [[[v[0], 0.0] for v in r] for r in H]
+    t = dict(kind=kind, par=dict(herm=H), tree=dict(wrap="arr", leaves=[dict(shape=shape, cplx=True) if cplx else dict(shape=shape)]))
+    nr = 2 * n if cplx else n
+    t["data"] = G.dys(rng, nr, -2, 2)
     if kind == "studentt":
-        t["par"]["dof"] = G.dys(rng, 1, 1, 6, 4)       # scalar: commutes with the dense noise operator
+        # scalar dof commutes with the dense operator; per-element dof does not: known finding C12-studentt-dense-noise-dof
+        t["par"]["dof"] = [1.5 + 0.75 * i for i in range(n)] if dof_per_element else G.dys(rng, 1, 1, 6, 4)
     if want_y:
-        t["y"] = G.dys(rng, 2 * n, -2, 2)
+        t["y"] = G.dys(rng, nr, -2, 2)
     return t
 
 
@@ -910,6 +924,9 @@ def run(ctx):
         cases.append(dict(op="lh", terms=[gen_herm_term(rng, "gaussian")]))
         cases.append(dict(op="lh", terms=[_maybe_defaults(rng, gen_herm_term(rng, "studentt"))]))
         cases.append(gen_ccomposed(rng, kinds=[rng.choice(["gaussian", "studentt"])], herm=True))
+        cases.append(dict(op="lh", terms=[gen_herm_term(rng, rng.choice(["gaussian", "studentt"]), cplx=False)]))
+    for _ in range(ctx.n(1, 3)):
+        cases.append(dict(op="lh", terms=[gen_herm_term(rng, "studentt", cplx=rng.random() < 0.5, dof_per_element=True)]))
     # float32: the same generators, run in workers with jax's default configuration (x64 off)
     cases32 = [gen_plain(rng, k) for k in G.KINDS for _ in range(ctx.n(1, 4))]
     cases32 += [gen_composed(rng) for _ in range(ctx.n(4, 30))]
